@@ -72,9 +72,15 @@ def laplacians(name):
         undo = _install(sx)
         try:
             V, faces = SURF[name]
-            mesh = meshgen.build(meshgen.generic_coords(V), (), faces)
-            nc = len(mesh.face_corners)
             cotan = sx.flag("cotan")
+            coords = [tuple(p) for p in meshgen.generic_coords(V)]
+            if not cotan and sx.flag("a_face_of_zero_area"):
+                # uniform weights are combinatorial: a triangle that is degenerate in space (third vertex on the opposite side)
+                # counts like any other
+                a, b, c = faces[0]
+                coords[c] = tuple((coords[a][k] + coords[b][k]) / 2 for k in range(3))
+            mesh = meshgen.build(coords, (), faces)
+            nc = len(mesh.face_corners)
             C = [sx.real("cot%d" % c) for c in range(nc)]
             if cotan:
                 a = mesh.face_corners.create_attribute("cotan", float, dense=True)
